@@ -37,7 +37,11 @@ def check_state_for_iface(rep, prog, rule):
                       node=fn, function='lltd_state_for_iface')
         elif t[0] == 'ptr' and t[1] == 'RECS':
             kinds['found'] += 1
-            rep.ok(rule)
+            # the hit must rest on the record's context having been compared equal to the caller's
+            want = ('ptr', 'ext:ctx', ZERO)
+            ok = any(str(a[1]).startswith('weakptr:RECS+%d#' % ctx_off) and st.canon(b) == want for a, b in st.eq.items() if a[0] == 'sym')
+            rep.check(ok, rule, 'state_for_iface|hit-key', 'the lookup returns a record without its context having been compared equal to the caller\'s context '
+                      '(another interface\'s state could be handed out)', node=fn, function='lltd_state_for_iface')
         elif t[0] == 'ptr' and st.objs.get(t[1]) is not None and st.objs[t[1]].heap:
             kinds['fresh'] += 1
             o = st.objs[t[1]]
